@@ -420,6 +420,38 @@ impl<A: Ord + Clone> From<Dot<A>> for VClock<A> {
 //@end
 }
 
+/// C10: learning a sequence of dots one after the other (`apply` each): the pointwise maximum, zero counters never stored
+pub open spec fn dots_fold<A>(ds: Seq<Dot<A>>, n: int) -> SMap<A, u64>
+    decreases n,
+{
+    if n <= 0 { SMap::<A, u64>::empty() } else { vapp(dots_fold(ds, n - 1), ds[n - 1].actor, ds[n - 1].counter) }
+}
+
+// vstd states the postcondition of every `FromIterator::from_iter` through this trait: `from_iter_ensures(items the iterator yields, result)`
+impl<A: Ord + Clone + core::fmt::Debug> vstd::std_specs::iter::FromIteratorSpecImpl<Dot<A>> for VClock<A> {
+    open spec fn from_iter_ensures(s: Seq<Dot<A>>, r: Self) -> bool { actor_ok::<A>() ==> r@ == dots_fold(s, s.len() as int) }
+}
+impl<A: Ord + Clone + core::fmt::Debug> core::iter::FromIterator<Dot<A>> for VClock<A> {
+//@extract fn src/vclock.rs "FromIterator for VClock" from_iter
+    // N8: the type parameter `I` is spelled `T` (this Verus generates ill-typed AIR for the inherited trait postcondition unless the
+    // impl uses the trait declaration's own parameter name)
+    fn from_iter< /*@<*/ I /*@>*/ /*@ T @*/ : IntoIterator<Item = Dot<A>>>(iter: /*@<*/ I /*@>*/ /*@ T @*/ ) -> Self
+    {
+        let mut clock = VClock::default();
+
+        //@ let dv = crate::stdx5::shim_intoiter_collect_vec(iter);
+        //@ let ghost ds = dv@;
+        for dot in /*@ it: dv @*/ /*@<*/ iter /*@>*/
+        //@ invariant it.seq() == ds, actor_ok::<A>() ==> nz(clock@) && clock@ == dots_fold(ds, it.index@ as int),
+        {
+            clock.apply(dot);
+        }
+
+        clock
+    }
+//@end
+}
+
 // ---------------------------------------------------------------------------------------------
 // OUT OF REACH (assumed contracts, bounded stand-in in the replay crate: `standin vclock_iter`).
 //  * VClock::iter returns `self.dots.iter().map(closure)`.  vstd specifies the Map adapter, but its
